@@ -149,7 +149,7 @@ def replay_roundtrip(case):
 # input forms
 
 TIMES = [(0, 0, 0.0), (12, 0, 0.0), (23, 59, 59.999), (6, 30, 15.25), (23, 59, 59.999998), (7, 12, 59.999996),
-         (0, 0, 0.000001)]
+         (0, 0, 0.000001), (0, 0, 0.5), (0, 0, 0.999999), (0, 7, 0.25), (5, 0, 0.75)]
 
 
 def form_instants(tier):
